@@ -672,6 +672,59 @@ def work_step0(shard):
     return part
 
 
+# failing jumps under an error trap --------------------------------------------------
+
+TJ_MAIN = [('print', 'm'), ('gosub', 100), ('gosub', 777), ('on', ('c', 1), 'gosub', [777]),
+           ('on', ('c', 2), 'gosub', [200, 777]), ('on', ('c', 1), 'gosub', [100]), ('return',),
+           ('goto', 777), ('if', ('c', 1), 777), ('on', ('c', 1), 'goto', [777])]
+TJ_SUB = [('print', 'u'), ('gosub', 777), ('on', ('c', 1), 'gosub', [777]), ('gosub', 200), ('goto', 777),
+          ('return',), ('on', ('c', 2), 'gosub', [200, 777])]
+
+
+def trapjump_cases(quick):
+    import itertools
+    n = 2 if quick else 3
+    out = []
+    for main in itertools.product(range(len(TJ_MAIN)), repeat=n):
+        for sub in range(len(TJ_SUB)):
+            for resume in ('next', None):
+                if resume is None and sub not in (1, 2):
+                    continue    # RESUME (retry) variant only with a failing GOSUB in the subroutine
+                out.append((main, sub, resume))
+    return out
+
+
+def trapjump_lines(case):
+    main, sub, resume = case
+    lines = [(10, [('onerror', 900)])]
+    for i, m in enumerate(main):
+        lines.append((20 + 10 * i, [TJ_MAIN[m], ('print', 'abc'[i])]))
+    lines.append((90, [('end',)]))
+    lines.append((100, [('print', 's'), TJ_SUB[sub], ('print', 'v'), ('return',)]))
+    lines.append((200, [('print', 't'), ('return',)]))
+    if resume == 'next':
+        lines.append((900, [('printerr',), ('resume', 'next')]))
+    else:
+        # retry once with the trap off: the same error then ends the program
+        lines.append((900, [('printerr',), ('onerror', 0), ('resume', None)]))
+    return lines
+
+
+def work_trapjump(shard):
+    part = Partial()
+    runner = Runner()
+    for case in shard:
+        lines = trapjump_lines(case)
+        c = {'trapjump': [list(case[0]), case[1], case[2]], 'program': [t.decode('latin-1') for t in MB.program_text(lines)]}
+        outcomes, res = judge(part, runner, lines, c, lambda oc, rs: 'trapjump/exp-%s' % final_kind(oc[0]))
+        part.n += 1
+        part.classes.add('trapjump/%s/%s/%s' % ('+'.join(sorted({TJ_MAIN[m][0] + ('-missing' if 777 in (TJ_MAIN[m][-1] if isinstance(TJ_MAIN[m][-1], list) else [TJ_MAIN[m][-1]]) else '') for m in case[0]})),
+                                              TJ_SUB[case[1]][0], final_kind(outcomes[0])))
+        part.outcome(final_kind(outcomes[0]))
+    part.sample(c)
+    return part
+
+
 def legs(ctx):
     out = []
     tier = ctx.tier
@@ -694,6 +747,11 @@ def legs(ctx):
                    bound='%d loops: start x end x step over %d integer / %d single boundary values and %d/%d '
                          'steps (+default), I%% I! I, trip count <= %d, alone / inside / around a second loop, '
                          '2 layouts' % (len(cases), len(INT_V), len(SNG_V), len(INT_S), len(SNG_S), MAX_TRIPS)))
+    tj = trapjump_cases(ctx.quick)
+    out.append(Leg('trapjump', list(chunked(tj, 60)), work_trapjump, exhaustive=True,
+                   bound='all %d programs: %d-statement sequences over %d main-line statements (GOSUB / ON GOSUB / GOTO / '
+                         'IF THEN to existing and missing lines, stray RETURN) x %d subroutine bodies under ON ERROR '
+                         'GOTO with RESUME NEXT or one retry' % (len(tj), 2 if ctx.quick else 3, len(TJ_MAIN), len(TJ_SUB))))
     out.append(Leg('step0', list(chunked(step0_cases(), 8)), work_step0, exhaustive=True,
                    bound='45 STEP 0 loops (crash freedom only; unspecified)'))
     return out
@@ -715,6 +773,10 @@ def replay(ctx, leg, case):
             cs = (sig, int(Fr(a)), int(Fr(b)), None if s is None else int(Fr(s)), shape)
         lines = forparam_lines(cs, case['variant'])
         judge(part, runner, lines, case, lambda oc, rs: _key('forparam', _culprit(['replay'], oc, rs)))
+    elif leg == 'trapjump':
+        m, sub, res = case['trapjump']
+        lines = trapjump_lines((tuple(m), sub, res))
+        judge(part, runner, lines, case, lambda oc, rs: 'trapjump/exp-%s' % final_kind(oc[0]))
     elif leg == 'step0':
         lines = step0_lines(tuple(case['step0']))
         judge(part, runner, lines, case, lambda oc, rs: 'step0')
